@@ -230,7 +230,8 @@ class Scheduler:
             if t.done:
                 continue
             if t.waiting_on is not None:
-                if all(self.tasks[i].done for i in t.waiting_on):
+                if t.killed or all(self.tasks[i].done
+                                   for i in t.waiting_on):
                     t.waiting_on = None
                 else:
                     continue
